@@ -868,10 +868,19 @@ def install(ctx):
     def index(ip, pc, args, dt):
         r, i = args
         s = read_loc(r.loc)
+        if isinstance(s, Ref):
+            s = read_loc(s.loc)
         if isinstance(s, Seq) and isinstance(i, S):
             if not ip.path.branch(z3.And(i.t >= 0, i.t < s.n), 'index bound'):
                 raise PanicPath('panic', 'index out of bounds')
             return Ref(r.loc.extend(('i', i)))
+        if isinstance(s, Seq) and isinstance(i, Agg) and i.name in ('Range', 'RangeFrom', 'RangeTo', 'RangeFull'):
+            lo = i.fields[0].t if i.name in ('Range', 'RangeFrom') else z3.IntVal(0)
+            hi = i.fields[1].t if i.name == 'Range' else (i.fields[0].t if i.name == 'RangeTo' else s.n)
+            if not ip.path.branch(z3.And(lo <= hi, hi <= s.n), 'slice range bound'):
+                raise PanicPath('panic', 'slice index out of range')
+            w = Window(s, lo, hi)
+            return Ref(Loc(Cell(w.to_seq(), 'subslice')))
         return NotImplemented
 
     # ---------------------------------------------------------- HashMap
